@@ -376,6 +376,46 @@ def fixed(acc):
         acc.klass("fixed")
 
 
+def many_reports(acc):
+    """Scale: a dozen orders on one helper, one of them worked in 1100 one-lot fills (reports per order and orders per helper both
+    cross digit counts): every ExecID fresh, every order keeps its OrderID, quantities consistent, each report valid."""
+    ft = FIXTester(schema=None)
+    orders = [FIXNewOrderSingle(f"ord{k}", "US.F.TICKER", side="1", price=100.0, qty=2000.0 if k == 0 else 10.0) for k in range(12)]
+    seen, oid = {}, {}
+    case = {"many_reports": True}
+
+    def take(o, m, what):
+        e = m.get(FTag.ExecID, None)
+        if e in seen:
+            acc.violation("C20:er/execid-repeated/at-scale", f"ExecID {e!r} issued for {what} was already used for {seen[e]}", case)
+        seen[e] = what
+        if oid.setdefault(o.clord_id_root, m.get(FTag.OrderID, None)) != m.get(FTag.OrderID, None):
+            acc.violation("C20:er/orderid-unstable/at-scale", f"{what}: OrderID {m.get(FTag.OrderID, None)!r}, earlier reports of the order carried {oid[o.clord_id_root]!r}", case)
+        if len(seen) % 97 == 0:
+            try:
+                with warnings.catch_warnings():
+                    warnings.simplefilter("ignore")
+                    schema().validate(m)
+            except FIXMessageError as ex:
+                acc.violation("C20:er/invalid-for-dictionary/at-scale", f"{what}: {str(ex)[:200]}", case)
+        o.process_execution_report(m)
+    try:
+        for k, o in enumerate(orders):
+            o.new_req()
+            ft.order_register_single(o)
+            take(o, ft.fix_exec_report_msg(o, o.clord_id, FExecType.NEW, FOrdStatus.NEW, cum_qty=0.0, leaves_qty=o.qty), f"ack of order {k}")
+        a = orders[0]
+        for i in range(1100):
+            cum = float(i + 1)
+            take(a, ft.fix_exec_report_msg(a, a.clord_id, FExecType.TRADE, FOrdStatus.PARTIALLY_FILLED, cum_qty=cum, leaves_qty=a.qty - cum, last_qty=1.0, avg_price=100.0), f"fill {i + 1} of order 0")
+        for k, o in enumerate(orders[1:], 1):
+            take(o, ft.fix_exec_report_msg(o, o.clord_id, FExecType.TRADE, FOrdStatus.FILLED, cum_qty=o.qty, leaves_qty=0.0, last_qty=o.qty, avg_price=100.0), f"fill of order {k}")
+    except Exception as e:  # noqa
+        acc.violation(f"C20:er/at-scale-raises/{type(e).__name__}", f"{type(e).__name__}: {e} after {len(seen)} reports", case)
+    acc.extra["fabricated_messages"] = acc.extra.get("fabricated_messages", 0) + len(seen)
+    acc.case(("many-reports",), cls=["many-reports"])
+
+
 def session_factories(acc):
     ft = FIXTester(schema=None)
     cases = []
@@ -440,7 +480,7 @@ def fidelity_fixed(acc, **kw):
 
 
 def plan(tier, seed):
-    jobs = [("fixed", {}), ("session_factories", {})]
+    jobs = [("fixed", {}), ("session_factories", {}), ("many_reports", {})]
     n, k, ml = (800, 8, 25) if tier == "quick" else (15000, 12, 60)
     jobs += [("fab_shard", {"n": n, "seed": derive_seed(seed, PROPERTY, "fab", i), "maxlen": ml}) for i in range(k)]
     from checks import c20_fidelity as F
@@ -450,6 +490,9 @@ def plan(tier, seed):
 
 
 def replay(acc, case):
+    if case.get("many_reports"):
+        many_reports(acc)
+        return
     if "script" in case:
         from checks import c20_fidelity as F
 
